@@ -40,7 +40,33 @@ def worker_finish(tier, rec, st):
     common.finish_monitors(rec, st)
 
 
+GENERIC_ARGS = [("date",), ("ip", "IPv4Address"), ("decimal",), ("timedelta",), ("uuid",), ("fraction",)]
+
+
+def make_generic_schema(fam, tg, rng):
+    """S(G[arg]): the field typed by the bare TypeVar is the only mention of arg's module in the whole class."""
+    tvn = tg.fresh("T")
+    fam.add({"k": "typevar", "name": tvn})
+    g = tg.fresh("G")
+    mixin = "DataClassDictMixin" if rng.random() < 0.75 else None
+    gfields = [{"n": "g", "t": ("tv", tvn)}, {"n": "n", "t": ("int",), "dmode": "default", "dseed": 1, "const_default": 0}]
+    if rng.random() < 0.5:
+        gfields.append({"n": "gs", "t": ("seq", "List", ("tv", tvn)), "dmode": "factory", "dseed": 0, "const_default": []})
+    fam.add({"k": "dc", "name": g, "bases": [], "mixin": mixin, "generic": [tvn], "fields": gfields}, tg.value_maker)
+    arg = rng.choice(GENERIC_ARGS)
+    name = tg.fresh("S")
+    cfg = {"forbid_extra_keys": "True"} if rng.random() < 0.3 else {}
+    if rng.random() < 0.2:
+        cfg["lazy_compilation"] = "True"
+    own = [{"n": "s", "t": rng.choice([("str",), ("int",)]), "dmode": "default", "dseed": 2, "const_default": rng.choice(["", 5])}]
+    fam.add({"k": "dc", "name": name, "bases": [f"{g}[{tast.render(arg)}]"], "mixin": None, "fields": own, "config": cfg,
+             "tv_bind": {tvn: arg}}, tg.value_maker)
+    return name
+
+
 def make_schema(fam, tg, rng):
+    if rng.random() < 0.1:
+        return make_generic_schema(fam, tg, rng)
     name = tg.fresh("S")
     kw_only = rng.random() < 0.3
     n = rng.randint(2, 5)
@@ -72,11 +98,36 @@ def make_schema(fam, tg, rng):
         cfg["aliases"] = repr(ca)
     if rng.random() < 0.2:
         cfg["lazy_compilation"] = "True"
-    d = {"k": "dc", "name": name, "bases": [], "mixin": "DataClassDictMixin" if rng.random() < 0.75 else None,
-         "fields": fields, "config": cfg}
+    mixin = "DataClassDictMixin" if rng.random() < 0.75 else None
+    d = {"k": "dc", "name": name, "bases": [], "mixin": mixin, "fields": fields, "config": cfg}
     if kw_only:
         d["dc_args"] = {"kw_only": True}
     tg._fix_defaults(d)
+    if rng.random() < 0.3:
+        # a parent declares a prefix of the fields differently; the class re-declares them with a PLAIN default
+        # (no field()): nullable-with-None in the parent -> not nullable here; required in the parent -> defaulted here
+        m = rng.randint(1, len(fields))
+        pfields, redeclared = [], []
+        for f in fields[:m]:
+            pf = dict(f)
+            pf.pop("alias", None)
+            plain = f.get("dmode") == "default" and "alias" not in f
+            if plain and tast.strip(f["t"])[0] not in ("opt", "none", "any", "union", "tv", "lit") and rng.random() < 0.6:
+                pf.update(t=("opt", f["t"], "Optional"), dmode="default", const_default=None)
+                redeclared.append(f)
+            elif plain and kw_only and rng.random() < 0.5:
+                pf.pop("dmode", None), pf.pop("dseed", None), pf.pop("const_default", None)
+                redeclared.append(f)
+            elif "alias" in f:
+                redeclared.append(f)         # keeps its alias metadata: declared here, not in the parent
+            pfields.append(pf)
+        if any(f.get("alias") is None for f in redeclared):
+            pname = tg.fresh("P")
+            pd = {"k": "dc", "name": pname, "bases": [], "mixin": mixin, "fields": pfields}
+            if kw_only:
+                pd["dc_args"] = {"kw_only": True}
+            fam.add(pd, tg.value_maker)
+            d.update(bases=[pname], mixin=None, fields=redeclared + fields[m:])
     fam.add(d, tg.value_maker)
     return name
 
